@@ -240,17 +240,27 @@ pub enum Ctx {
     GroupLone,
     GroupFirst,
     GroupLast,
+    /// two nested invisible groups (a fragment forwarded through two macros)
+    Group2First,
+    Group2Last,
 }
 
 impl Ctx {
     fn grouped(self) -> bool {
-        matches!(self, Ctx::GroupLone | Ctx::GroupFirst | Ctx::GroupLast)
+        matches!(self, Ctx::GroupLone | Ctx::GroupFirst | Ctx::GroupLast | Ctx::Group2First | Ctx::Group2Last)
+    }
+    fn depth(self) -> usize {
+        match self {
+            Ctx::Group2First | Ctx::Group2Last => 2,
+            c if c.grouped() => 1,
+            _ => 0,
+        }
     }
     fn base(self) -> Ctx {
         match self {
             Ctx::GroupLone => Ctx::Lone,
-            Ctx::GroupFirst => Ctx::ListFirst,
-            Ctx::GroupLast => Ctx::ListLast,
+            Ctx::GroupFirst | Ctx::Group2First => Ctx::ListFirst,
+            Ctx::GroupLast | Ctx::Group2Last => Ctx::ListLast,
             c => c,
         }
     }
@@ -258,7 +268,7 @@ impl Ctx {
 
 /// Wraps the value of the first `v = <value>` found (at any nesting level) in an invisible group
 /// whose span covers the value tokens. Returns whether a value was wrapped.
-fn group_value(ts: proc_macro2::TokenStream, done: &mut bool) -> proc_macro2::TokenStream {
+fn group_value(ts: proc_macro2::TokenStream, done: &mut bool, depth: usize) -> proc_macro2::TokenStream {
     use proc_macro2::{Delimiter, Group, TokenTree};
     let toks: Vec<TokenTree> = ts.into_iter().collect();
     let mut out: Vec<TokenTree> = vec![];
@@ -279,6 +289,11 @@ fn group_value(ts: proc_macro2::TokenStream, done: &mut bool) -> proc_macro2::To
                 let span = inner[0].span().join(inner[inner.len() - 1].span()).unwrap_or_else(|| inner[0].span());
                 let mut g = Group::new(Delimiter::None, inner.into_iter().collect());
                 g.set_span(span);
+                for _ in 1..depth {
+                    let mut outer = Group::new(Delimiter::None, std::iter::once(TokenTree::Group(g)).collect());
+                    outer.set_span(span);
+                    g = outer;
+                }
                 out.push(TokenTree::Group(g));
                 *done = true;
             }
@@ -287,7 +302,7 @@ fn group_value(ts: proc_macro2::TokenStream, done: &mut bool) -> proc_macro2::To
         }
         match &toks[i] {
             TokenTree::Group(g) if !*done && g.delimiter() != Delimiter::None => {
-                let mut ng = Group::new(g.delimiter(), group_value(g.stream(), done));
+                let mut ng = Group::new(g.delimiter(), group_value(g.stream(), done, depth));
                 ng.set_span(g.span());
                 out.push(TokenTree::Group(ng));
             }
@@ -314,6 +329,7 @@ pub enum Obs {
 fn run<T: Target>(form: &str, ctx: Ctx) -> Obs {
     use syn::spanned::Spanned;
     let grouped = ctx.grouped();
+    let depth = ctx.depth();
     let ctx = ctx.base();
     let src = match ctx {
         Ctx::Lone => format!("#[{form}] struct S;"),
@@ -327,7 +343,7 @@ fn run<T: Target>(form: &str, ctx: Ctx) -> Obs {
         }
         let ts: proc_macro2::TokenStream = src.parse().unwrap();
         let mut done = false;
-        let ts = group_value(ts, &mut done);
+        let ts = group_value(ts, &mut done, depth);
         if !done {
             return Obs::NoValue;
         }
@@ -699,7 +715,7 @@ pub fn main(args: &Args) {
     }
     let mut rep = Report::new("C11", args.tier, "exploration");
     let thorough = args.tier == vrt::Tier::Thorough;
-    let ctxs = [Ctx::Lone, Ctx::ListFirst, Ctx::ListLast, Ctx::GroupLone, Ctx::GroupFirst, Ctx::GroupLast];
+    let ctxs = [Ctx::Lone, Ctx::ListFirst, Ctx::ListLast, Ctx::GroupLone, Ctx::GroupFirst, Ctx::GroupLast, Ctx::Group2First, Ctx::Group2Last];
 
     // (1) the dense range, bare and quoted, every context
     let range_targets: Vec<&TargetInfo> = tis.iter().filter(|t| t.kind == Kind::Int).take(if thorough { 24 } else { 6 }).collect();
